@@ -309,6 +309,11 @@ MSG_VARIANTS = [
          cjk=["%甲处%v错误", "%乙处%v错误", "%丙处%v错误", "%丁处%v错误"],
          mixed=["A项 %!d(MISSING) 错误", "B项 %!d(MISSING) 错误", "C项 %!d(MISSING) 错误", "D项 %!d(MISSING) 错误"],
          latin=["é%", "ß%", "ø%", "ñ%"]),
+    # the first and the last character of the basic CJK block (U+4E00, U+9FA5) as the only CJK characters
+    dict(ascii=["value A?", "value B?", "value C?", "value D?"],
+         cjk=["龥一", "一龥", "龥龥", "一一"],
+         mixed=["name 龥 A", "name 一 B", "龥 C", "D 一"],
+         latin=["naïve A", "naïve B", "naïve C", "naïve D"]),
 ]
 LABELS = {"zh": "说明: ", "en": "explain: "}
 SEP = "; "
@@ -346,16 +351,21 @@ def _abstract_clauses(err):
     return out
 
 
+def _cjk(s):
+    """the wire symbols @Z / @Y of Explain!Sweep: one CJK character each"""
+    return s.replace("@Z", "男").replace("@Y", "性")
+
+
 def _concrete_case(ctx, cid, carrier, grp, clauses, paths):
     ctx.mv = _variant(ctx, cid)
-    fields = [dict(rule=c["rule"], arg=c["arg"], input=paths.get(c["input"], c["input"]), msg=_msg(ctx, c["msg"])) for c in clauses]
+    fields = [dict(rule=c["rule"], arg=_cjk(c["arg"]), input=paths.get(c["input"], c["input"]), msg=_msg(ctx, c["msg"])) for c in clauses]
     return dict(id=cid, carrier=carrier, grp=grp, fields=fields, mv=ctx.mv)
 
 
 def _expl_text(ctx, e):
     if e["msg"]["shape"] != "none":
         return _msg(ctx, e["msg"])
-    return e["def"]
+    return _cjk(e["def"])
 
 
 def _check_case(ctx, case, exp_clauses, exp_extract, out, meta):
@@ -421,6 +431,10 @@ def run_c15(ctx):
         cid = len(cases)
         fields = [c for c in s["clauses"] if c["kind"] != "grp"]
         cases.append(_concrete_case(ctx, cid, s["carrier"], s["grp"], fields, paths))
+        if cid % 61 == 7 and len(fields) >= 2:
+            # one clause in front of the others that is longer than 64 KiB (the rejected input is echoed): every rule of
+            # the sequence scenarios rejects this input exactly as it rejects "abc"
+            cases[-1]["fields"][0]["input"] = "abc" * 23400
         expect[cid] = (s["clauses"], s["expect"], dict(kinds="-".join(s["kinds"]) + ("+grp" if s["grp"] else "")), "seq")
     for w in sweep:
         cid = len(cases)
